@@ -904,7 +904,8 @@ pub struct RefSem;
 impl Family for RefSem {
     fn search(&self, budget: &mut Budget, seed: u64) -> Option<(Value, String)> {
         let ts = texts();
-        for (i, e) in fixed_patterns().iter().enumerate() {
+        let fixed = if std::env::var("REFSEM_SKIP_FIXED").is_ok() { vec![] } else { fixed_patterns() };
+        for (i, e) in fixed.iter().enumerate() {
             if let Some((mut w, d)) = check_pattern(e, &ts, budget) {
                 w["gen"] = json!([u64::MAX, i]);
                 return Some((w, d));
